@@ -32,7 +32,7 @@ NOT_DECIDED = ['every string comparison result', 'the search over trailing seque
 
 
 def run(ctx):
-    for fn in (r1_never_after, r2_check_guard, r3_unmatched_typestate, r4_repr_fallback,
+    for fn in (r1_never_after, r2_check_guard, r3_unmatched_typestate, r4_repr_fallback, r4b_which_text_is_compared,
                r5_comment_only, r5b_code_predicate_on_stripped_lines, r6_summary_flags, r7_got_eval_fresh, r8_trailing_sequences, r9_got_want_roles, r10_single_statement_modes_are_cut):
         ctx.rep.rule(fn, ctx)
 
@@ -586,12 +586,76 @@ def r10_single_statement_modes_are_cut(ctx):
     c01.r9_single_statement_modes_are_cut(ctx, rule='C02.R10')
 
 
+def r4b_which_text_is_compared(ctx):
+    """check_got_vs_want compares the want with stdout when nothing was evaluated, with repr(value) when nothing was printed, and with stdout and
+    THEN -- if that failed -- with repr(value) when there is both.  Per branch: the text handed to check_output is the right one (every definition
+    that reaches the argument), and the fallback comparison exists and stores its verdict"""
+    rep = ctx.rep
+    q = 'xdoctest.checker.check_got_vs_want'
+    f = ctx.func(q)
+    g = ctx.cfg(f)
+    rd = ctx.rd(f)
+    dom = ctx.dom(g, g.entry)
+    sites = []
+    for n in g.nodes:
+        if n.dup:
+            continue
+        for c in node_calls(n):
+            r = ctx.res.resolve_call(f, c)
+            if r[0] == 'repo' and r[1][0].qualname == 'xdoctest.checker.check_output' and c.args:
+                a0 = c.args[0]
+                vals = [a0]
+                if isinstance(a0, ast.Name):
+                    vals = [d.value if isinstance(d.value, ast.AST) else None for d in rd.at(n, a0.id)]
+                kinds = set()
+                for v in vals:
+                    if v is None:
+                        kinds.add('?')
+                    elif _is_repr_of(v, 'got_eval') or (isinstance(v, ast.Call) and len(v.args) == 1 and is_name(v.args[0], 'got_eval') and _repr_helper(ctx, f, v) is not None):
+                        kinds.add('repr')
+                    elif is_name(v, 'got_stdout'):
+                        kinds.add('stdout')
+                    else:
+                        kinds.add('?')
+                facts = [fa for fa in graph.guard_facts(dom, n) if fa.polarity in (True, False) and isinstance(fa.expr, ast.AST)]
+                noeval = next((fa.polarity for fa in facts if isinstance(fa.expr, ast.Compare) and 'NOT_EVALED' in fa.text and isinstance(fa.expr.ops[0], ast.Is)), None)
+                printed = next((fa.polarity for fa in facts if is_name(fa.expr, 'got_stdout')), None)
+                failed_before = any(fa.polarity is False and isinstance(fa.expr, ast.Name) and fa.expr.id not in ('got_stdout',) for fa in facts)
+                stored = isinstance(n.ast, ast.Assign) and isinstance(n.ast.targets[0], ast.Name)
+                sites.append((n, c, kinds, noeval, printed, failed_before, stored))
+    rep.floor('C02.R4b', 'comparisons in check_got_vs_want', len(sites), 3)
+    have = set()
+    for (n, c, kinds, noeval, printed, failed_before, stored) in sites:
+        if noeval is True:
+            want_kind, branch = {'stdout'}, 'nothing evaluated'
+        elif printed is False:
+            want_kind, branch = {'repr'}, 'evaluated, nothing printed'
+        elif printed is True and failed_before:
+            want_kind, branch = {'repr'}, 'evaluated and printed, stdout did not match'
+        elif printed is True:
+            want_kind, branch = {'stdout'}, 'evaluated and printed'
+        else:
+            raise AnalysisError('C02.R4b: the branch of %s was not recognised' % ctx.src(c))
+        ok = kinds == want_kind and stored
+        have.add(branch)
+        rep.ob('C02.R4b', ctx.loc(f, c), '%s | %s' % (ctx.src(c), branch), ok,
+               'compares the %s text and keeps the verdict' % '/'.join(sorted(want_kind)) if ok else
+               ('in the branch "%s" the compared text is %s instead of %s: %s' % (branch, sorted(kinds), sorted(want_kind),
+                'the value fallback never sees repr(value), so an example that prints and returns fails although its want is the value' if want_kind == {'repr'} else 'the wrong side is compared')
+                if kinds != want_kind else 'the verdict of this comparison is not stored'), anchor=q)
+    missing = {'nothing evaluated', 'evaluated, nothing printed', 'evaluated and printed', 'evaluated and printed, stdout did not match'} - have
+    rep.ob('C02.R4b', ctx.loc(f, f.node), 'a comparison in each of the four situations', not missing,
+           'stdout / repr / stdout then repr' if not missing else 'no comparison is made when: %s' % sorted(missing), anchor=q)
+
+
 # ---------------------------------------------------------------------------
 from ..selftest import fire, silent      # noqa: E402
 
 DE = 'xdoctest/doctest_example.py'
 CK = 'xdoctest/checker.py'
 VARIANTS = [
+    fire('value-fallback-compares-stdout-again', 'C02.R4b', ('xdoctest/checker.py', "                try:\n                    got = repr(got_eval)\n                except Exception as ex:", "                try:\n                    pass\n                except Exception as ex:")),
+    fire('value-fallback-not-compared', 'C02.R4b', ('xdoctest/checker.py', "                flag = check_output(got, want, runstate)\n                if not flag:\n                    got = got_stdout\n", "                if not flag:\n                    got = got_stdout\n")),
     fire('comment-test-on-raw-lines', 'C02.R5b', ('xdoctest/doctest_part.py', "            for line in slines\n", "            for line in self.exec_lines\n")),
     silent('comment-test-strips-in-place', ('xdoctest/doctest_part.py', "            not line or line.startswith('#')\n            for line in slines\n", "            not line.strip() or line.strip().startswith('#')\n            for line in self.exec_lines\n")),
     fire('skipped-flag-from-anything-ran', 'C02.R6', (DE, "        skipped = len(self._skipped_parts) == len(self._parts)\n", "        skipped = not self.anything_ran()\n")),
